@@ -52,7 +52,7 @@ def parseTVs (s : String) : Option (List (Int × String)) :=
 def showTVs (l : List (Int × String)) : String :=
   if l.isEmpty then "-" else ",".intercalate (l.map fun (t, v) => s!"{t}:{v}")
 
-def step (s : St) (line : String) : St × String :=
+partial def step (s : St) (line : String) : St × String :=
   match splitWs line with
   | ["vmerge", a, b] =>
     match parseTVs a, parseTVs b with
@@ -87,6 +87,11 @@ def step (s : St) (line : String) : St × String :=
       (s', showWrite r)
     | _, _, _, _ => (s, "bad-op")
   | ["snap"] => (s, "ok")
+  | "crash" :: _ => (s, "ok")
+  | "crashat" :: _ :: "snap" :: _ => (s, "ok")
+  | "crashat" :: _ :: "compact" :: _ => (s, "ok")
+  | ["crashat", _, "del", meas, pred, tmin, tmax] => step s s!"del {meas} {pred} {tmin} {tmax}"
+  | ["crashat", _, "dropm", meas] => step s s!"dropm {meas}"
   | ["snaphold"] => (s, "ok")
   | ["snaprelease"] => (s, "ok")
   | "compact" :: _ => (s, "ok")
